@@ -31,6 +31,11 @@ WORLDS = {
     # B lists A both indirectly (through C) and directly
     'redundant-base': ({'A': (), 'C': ('A',), 'B': ('C', 'A')},
                        {'a': 'A', 'b1': 'B', 'b2': 'B', 'c': 'C'}),
+    # two stacked diamonds: X is reached from A along three paths of different
+    # length, one of them through another join (D)
+    'stacked-diamonds': ({'A': (), 'Z': ('A',), 'B': ('A',), 'C': ('A',), 'D': ('B', 'C'),
+                          'X': ('Z', 'D')},
+                         {'x1': 'X', 'd1': 'D'}),
 }
 
 
@@ -446,6 +451,8 @@ CFG = {
     'chain3': dict(world='chain3', sub='C', kill=['c1'], cls_subjects=[], extras=False),
     'tree-classes': dict(world='tree', sub='B', kill=[], cls_subjects=[], extras=False,
                          focus=['A', 'B', 'b1']),
+    'stacked-diamonds': dict(world='stacked-diamonds', sub='X', kill=[], cls_subjects=[], extras=False,
+                             focus=['A', 'C', 'X', 'x1']),
 }
 
 
@@ -458,13 +465,15 @@ def run(ctx):
                 ('diamond', 2, ['D', 'd2'], 1),
                 ('redundant-base', 2, ['C', 'B', 'b2'], 1),
                 ('chain3', 3, ['c2'], 1),
-                ('tree-classes', 4, None, 0)]
+                ('tree-classes', 4, None, 0),
+                ('stacked-diamonds', 3, None, 0)]
     else:
         plan = [('tree', 4, ['B', 'b2'], 1),
                 ('diamond', 3, ['C', 'D', 'd2'], 1),
                 ('redundant-base', 3, ['C', 'B', 'b2'], 1),
                 ('chain3', 4, ['c2'], 1),
-                ('tree-classes', 5, None, 0)]
+                ('tree-classes', 5, None, 0),
+                ('stacked-diamonds', 4, None, 0)]
     if 'depth' in ctx.opts:
         plan = [(p[0], int(ctx.opts['depth']), p[2], int(ctx.opts.get('extra', p[3])))
                 for p in plan]
